@@ -482,7 +482,9 @@ def slice_dim(f, slicedef, fuzzydim=True):
     slicedef = slicedef.split(',')
     slicedef = [slicedef[0]] + list(map(eval, slicedef[1:]))
     if len(slicedef) == 2:
-        slicedef.append(slicedef[-1] + 1)
+        # one index: the element itself (-1 is the last one, not an empty
+        # range that stops at 0)
+        slicedef.append((slicedef[-1] + 1) or None)
     slicedef = (slicedef + [None, ])[:4]
     dimkey, dmin, dmax, dstride = slicedef
     if dimkey not in inf.dimensions:
